@@ -7,6 +7,7 @@ import (
 	"fmt"
 	"io"
 	"os"
+	"strings"
 	"sync"
 	"sync/atomic"
 	"time"
@@ -23,6 +24,7 @@ type RdbReader struct {
 	writer   io.WriteCloser
 	offset   int64
 	size     int64
+	writting bool // the file was opened under its temporary name : its writer may still append
 	wait     usync.WaitCloser
 	observer atomic.Pointer[Observer]
 }
@@ -58,6 +60,7 @@ func newRdbReader(w io.WriteCloser, rdbFilePath string, offset int64, rdbSize in
 		writer:   w,
 		size:     rdbSize,
 		offset:   offset,
+		writting: isWritting,
 	}
 	r.wait = usync.NewWaitCloser(func(err error) {
 		r.close()
@@ -172,6 +175,11 @@ func (r *RdbReader) pump() (err error) {
 		}
 		n, err = r.read(p)
 		for err == io.EOF && !r.wait.IsClosed() { // EOF means n is zero
+			if r.finalized() {
+				// nobody appends to a finalized file : bytes that are missing now will never come
+				n, err = r.read(p)
+				break
+			}
 			time.Sleep(time.Millisecond * 10)
 			n, err = r.read(p)
 		}
@@ -189,6 +197,19 @@ func (r *RdbReader) pump() (err error) {
 		return errors.Join(err, fmt.Errorf("imcomplete rdb replay : rdbSize(%d), remains(%d)", r.size, rdbSize))
 	}
 	return err
+}
+
+// finalized reports whether the writer of the file is done with it : the file was opened under
+// its final name, or the writer has renamed the temporary file meanwhile.
+func (r *RdbReader) finalized() bool {
+	if !r.writting {
+		return true
+	}
+	if fileExist(strings.TrimSuffix(r.filePath, ".tmp")) {
+		r.writting = false
+		return true
+	}
+	return false
 }
 
 func (r *RdbReader) read(buf []byte) (n int, err error) {
